@@ -17,7 +17,7 @@ pub fn mon() -> Mon {
         run,
         finish,
         replay,
-        rule: "Forged control requests for the 7 answerable command forms (Set Endpoint ID operations 0/1/3 with EID 0x01-0xFE, Get Endpoint ID, UUID, Version with every query byte, Message Types, Vendor selector < n) plus requests for unsupported commands and out-of-range operations/selectors, with requester address 0-127 (source EID = source address), responder address 0-127 (all 128x128 pairs per command form), every instance ID 0-31, on contexts with random valid configurations and random prior histories. Every generated response is checked field by field against the REQUEST bytes: byte count == len-4, reported length, command code 0x0F, destination address == request source address with the write bit clear, source address == own address with bit 0 set, header version 1, destination EID == request source EID, source EID == own address, SOM/EOM/seq 1/1/0, control type, request bit clear, same command code, same instance ID, a completion-code byte, and an independently computed PEC. Whether a request is answered at all is not judged here (C13-C15 do, for their commands); a command form for which no response was ever observed makes the run inconclusive. Non-trivial = a response was judged; distinct = distinct (request, responder) hashes.",
+        rule: "Forged control requests for the 7 answerable command forms (Set Endpoint ID operations 0/1/3 with EID 0x01-0xFE, Get Endpoint ID, UUID, Version with every query byte, Message Types, Vendor selector < n) plus requests for unsupported commands and out-of-range operations/selectors, with requester address 0-127 (source EID = source address), responder address 0-127 (all 128x128 pairs per command form), every instance ID 0-31, on contexts with random valid configurations and random prior histories; one request in three is *retried* (processed two or three times, the last response judged). Every generated response is checked field by field against the REQUEST bytes: byte count == len-4, reported length, command code 0x0F, destination address == request source address with the write bit clear, source address == own address with bit 0 set, header version 1, destination EID == request source EID, source EID == own address, SOM/EOM/seq 1/1/0, control type, request bit clear, same command code, same instance ID, a completion-code byte, and an independently computed PEC. Whether a request is answered at all is not judged here (C13-C15 do, for their commands); a command form for which no response was ever observed makes the run inconclusive. Non-trivial = a response was judged; distinct = distinct (request, responder) hashes.",
         assumptions: &[
             "requests whose SMBus source address and source endpoint ID name different requesters, and EIDs 0x00/0xFF in Set Endpoint ID, are outside the quantifier and not generated",
             "tag-owner/tag bits and the datagram/reserved bits of the response are not constrained by the statement",
@@ -64,7 +64,21 @@ pub fn check(cfgc: &CtxCfg, prelude_seed: u64, prelude_len: usize, req: &[u8], r
             let op = instantiate(l, &mut prng, &m);
             exec(ctx, &op, 80, 7);
         }
-        let obs = exec(ctx, &Op::Process(req.to_vec()), 64 + (prelude_seed % 200) as usize, prelude_seed ^ 0xC12);
+        let mut obs = exec(ctx, &Op::Process(req.to_vec()), rb_len(prelude_seed), prelude_seed ^ 0xC12);
+        // a retry: one time in three the byte-identical request is processed a second (and third)
+        // time and the LAST response is the one judged
+        let retries = match prelude_seed % 6 {
+            0 => 1,
+            1 => 2,
+            _ => 0,
+        };
+        for k in 0..retries {
+            if obs.resp.is_none() {
+                break;
+            }
+            rep.class("retried-request");
+            obs = exec(ctx, &Op::Process(req.to_vec()), rb_len(prelude_seed.rotate_left(7 + k)), prelude_seed ^ 0xC12 ^ (k as u64 + 1));
+        }
         let r = match &obs.resp {
             Some(r) => r.clone(),
             None => {
@@ -142,6 +156,15 @@ pub fn check(cfgc: &CtxCfg, prelude_seed: u64, prelude_len: usize, req: &[u8], r
             rep.sample(|| J::obj(vec![("request", J::s(hex(req))), ("responder", J::s(cfgc.describe())), ("response", J::s(hex(&r)))]));
         }
     });
+}
+
+/// response buffer length: usually 64..263, one time in four exactly 64 (the guaranteed minimum)
+fn rb_len(seed: u64) -> usize {
+    if seed % 4 == 0 {
+        64
+    } else {
+        64 + (seed % 200) as usize
+    }
 }
 
 fn make_request(form: u8, rng: &mut Rng, own: u8, src: u8, iid: u8, nsets: usize) -> Vec<u8> {
